@@ -632,8 +632,11 @@ static std::string exec(const std::vector<std::string>& t, std::string& preds) {
             const auto res = upa::ipv4_parse(b.get(), b.get() + units.size(), v);
             return res == upa::validation_errc::ok ? std::to_string(v) : std::string("F");
         };
-        r = run(char());
-        if (run(char16_t()) != r || run(char32_t()) != r) return "WIDTH-DIFF";
+        // units above 0xFF exist only in the wide runs (a narrowing cast would change the text)
+        uint32_t mx = 0; for (auto u : units) if (u > mx) mx = u;
+        r = run(char32_t());
+        if (mx <= 0xFFFF && run(char16_t()) != r) return "WIDTH-DIFF";
+        if (mx <= 0xFF && run(char()) != r) return "WIDTH-DIFF";
         return r;
     }
     if (op == "ends" && t.size() == 2) {
@@ -642,10 +645,10 @@ static std::string exec(const std::vector<std::string>& t, std::string& preds) {
         for (std::size_t i = 0; i < units.size(); ++i) b[i] = static_cast<char>(units[i]);
         std::unique_ptr<char32_t[]> w(new char32_t[units.size() ? units.size() : 1]);
         for (std::size_t i = 0; i < units.size(); ++i) w[i] = static_cast<char32_t>(units[i]);
-        const bool a = upa::hostname_ends_in_a_number(b.get(), b.get() + units.size());
+        uint32_t mx = 0; for (auto u : units) if (u > mx) mx = u;
         const bool c = upa::hostname_ends_in_a_number(w.get(), w.get() + units.size());
-        if (a != c) return "WIDTH-DIFF";
-        return a ? "1" : "0";
+        if (mx <= 0xFF && upa::hostname_ends_in_a_number(b.get(), b.get() + units.size()) != c) return "WIDTH-DIFF";
+        return c ? "1" : "0";
     }
     if (op == "ipv4ser" && t.size() == 2) {
         std::string out;
@@ -665,8 +668,10 @@ static std::string exec(const std::vector<std::string>& t, std::string& preds) {
             for (int i = 0; i < 8; ++i) { if (i) s += ','; s += std::to_string(a[i]); }
             return s;
         };
-        const std::string r = run(char());
-        if (run(char16_t()) != r || run(char32_t()) != r) return "WIDTH-DIFF";
+        uint32_t mx = 0; for (auto u : units) if (u > mx) mx = u;
+        const std::string r = run(char32_t());
+        if (mx <= 0xFFFF && run(char16_t()) != r) return "WIDTH-DIFF";
+        if (mx <= 0xFF && run(char()) != r) return "WIDTH-DIFF";
         return r;
     }
     if (op == "ipv6ser" && t.size() == 2) {
